@@ -443,7 +443,13 @@ def run(ctx):
     deck = {"kind": "deck", "slides": [{"shapes": [tbl, ["text", [[["r", 9]]]], tbl], "notes": []},
                                        {"shapes": [tbl], "notes": []}]}
     jobs += [{"doc": deck, "fmt": f} for f in ("pptx", "odp")]
-    ndocs += 4
+    # several DIFFERENT tables on one slide (their order is the order of the frames on the slide)
+    def tb(a):
+        return ["tbl", [[[[["r", a]]], [[["r", a + 1]]]]]]
+    deck2 = {"kind": "deck", "slides": [{"shapes": [tb(1), tb(3), tb(5)], "notes": []},
+                                        {"shapes": [["title", [["r", 7]]], tb(8), ["text", [[["r", 10]]]], tb(11)], "notes": []}]}
+    jobs += [{"doc": deck2, "fmt": f} for f in ("pptx", "odp")]
+    ndocs += 5
     ctx.log(f"{ndocs} documents, {len(jobs)} (document, format) extractions")
     traces = run_suite(ctx, jobs, _events, "tables")
     for t in traces:
